@@ -133,6 +133,37 @@ Theorem C18_way_polygon_any_sorted_table :
 Proof. exact way_polygon_bool_spec. Qed.
 Print Assumptions C18_way_polygon_any_sorted_table.
 
+(* ---- 3b. full WayNode values: annotations never matter ---- *)
+
+(* the function over way nodes with version, changeset and location: the declarative
+   specification of the REFS (map wid ns) — closedness is "first ref = last ref", whatever the
+   versions and locations of the end nodes are *)
+Theorem C18_way_polygon_waynodes_spec : forall (ns : list waynode) (ts : tags),
+  NoDup (keys ts) ->
+  exists b, way_polygon_wn RT ns ts = Val b /\ (b = true <-> spec_polygon (map wid ns) ts).
+Proof. exact way_polygon_wn_RT_spec. Qed.
+Print Assumptions C18_way_polygon_waynodes_spec.
+
+Theorem C18_way_polygon_waynodes_bool : forall (ns : list waynode) (ts : tags),
+  way_polygon_wn RT ns ts = Val (spec_polygonb (map wid ns) (fun k => find k ts)).
+Proof. exact way_polygon_wn_RT_bool. Qed.
+
+Theorem C18_annotations_irrelevant : forall (T : list rule) (ns ns' : list waynode) (ts : tags),
+  map wid ns = map wid ns' -> way_polygon_wn T ns ts = way_polygon_wn T ns' ts.
+Proof. exact way_polygon_wn_annotations. Qed.
+Print Assumptions C18_annotations_irrelevant.
+
+(* two different nodes on the same spot do not close a way; one node with two recorded
+   locations does *)
+Example ex_duplicate_location_is_not_closed :
+  way_polygon_wn RT
+    [mkWayNode 1 1 1 10 20; mkWayNode 2 1 1 10 21; mkWayNode 3 2 1 11 21; mkWayNode 4 1 1 11 20;
+     mkWayNode 5 3 1 10 20]%Z [("building", "yes")] = Val false /\
+  way_polygon_wn RT
+    [mkWayNode 1 1 1 10 20; mkWayNode 2 1 1 10 21; mkWayNode 3 2 1 11 21; mkWayNode 4 1 1 11 20;
+     mkWayNode 1 7 9 55 66]%Z [("building", "yes")] = Val true.
+Proof. vm_compute. split; reflexivity. Qed.
+
 (* ---- 4. the answer depends only on the tag set ---- *)
 
 Theorem C18_tag_order_irrelevant : forall (T : list rule) (nodes : list Z) (ts ts' : tags),
